@@ -119,6 +119,13 @@ class MultiplexForecaster(
                 " Valid selected_forecaster parameters: {}".format(component_names)
             )
 
+    def _set_cutoff(self, cutoff):
+        """Set the cutoff of the multiplexer and of its selected fitted forecaster."""
+        super(MultiplexForecaster, self)._set_cutoff(cutoff)
+        forecaster = getattr(self, "_forecaster", None)
+        if forecaster is not None and hasattr(forecaster, "_set_cutoff"):
+            forecaster._set_cutoff(cutoff)
+
     def _set_forecaster(self):
         self._check_selected_forecaster()
         if self.selected_forecaster is not None:
